@@ -6,7 +6,7 @@ def queries():
     for h in (3, 4, 5, 6, 7):
         qs.append(Query('seq_h%d' % h, SRC, 'h_countingptr',
                         'sequential history: %d symbolic operations out of 17 kinds over 3 CountingPtr<Obj> handles + 1 CountingPtr<Base>, up to 4 objects (incl. unify copies)' % h,
-                        defs=['H=%d' % h], tiers=('quick', 'thorough') if h <= 4 else ('thorough',), timeout=900 if h <= 4 else 3600, unwind=5, weight=h))
+                        defs=['H=%d' % h], tiers=('quick', 'thorough') if h <= 3 else ('thorough',), timeout=900 if h <= 3 else 7200, unwind=5, weight=h))
     return qs
 
 ASSUMPTIONS = ['objects derive from tlx::ReferenceCounter and start with count zero (documented requirement)', 'std::atomic operations are sequentially consistent in the sequential histories']
